@@ -53,12 +53,8 @@ theorem txLoop_congr (env : Env L) (s1 s2 : Node L) (hp : s1.pool = s2.pool) (hl
   induction ts generalizing p with
   | nil => rfl
   | cons t rest ih =>
-    simp only [txLoop, hp, hl, hb, hc]
-    split
-    · exact ih _
-    · split
-      · rfl
-      · exact ih _
+    simp only [txLoop, pooledSame, hp, hl, hb, hc, ih]
+    rfl
 
 theorem node_ext (a b : Node L) (h1 : a.cfg = b.cfg) (h2 : a.blockHeight = b.blockHeight)
     (h3 : a.headers = b.headers) (h4 : a.ledger = b.ledger) (h5 : a.pool = b.pool) : a = b := by
@@ -81,16 +77,24 @@ theorem bodyStep_congr (env : Env L) (a c t : Node L) (b : Block)
   · cases h
   · split at h
     · cases h
-    · rename_i h1 h2
-      rw [if_neg h1, if_neg h2]
-      obtain ⟨l', ha, hn', ht⟩ := storeBlock_ok env c t b h
-      unfold storeBlock
-      rw [hl, ha]
-      simp only [hn l', hn', if_true]
-      rw [ht]
-      congr 1
-      unfold commit
-      apply node_ext <;> simp [hc, hp, hs]
+    · split at h
+      · cases h
+      · rename_i h1 h2 h3
+        rw [if_neg h1, if_neg h2, if_neg h3]
+        obtain ⟨l', ha, hn', ht⟩ := storeBlock_ok env c t b h
+        unfold storeBlock
+        rw [hl, ha]
+        simp only [hn l', hn', if_true]
+        rw [ht]
+        congr 1
+        unfold commit
+        apply node_ext <;> simp [hc, hp, hs]
+
+theorem lookup_append (s : Node L) (x : Nat) (last h : Header) (hl : s.lookup x = some last) :
+    ({ s with headers := s.headers ++ [h] } : Node L).lookup x = some last := by
+  unfold Node.lookup at hl ⊢
+  simp only [List.find?_append, hl]
+  rfl
 
 /-- C06 (3): after any rejected block `b'`, a block `b` that the node would have accepted is still
 accepted and leads to exactly the same node, provided the rejected block did not leave the header
@@ -124,7 +128,7 @@ theorem correct_still_accepted_aux (env : Env L) (s s' t : Node L) (b' b : Block
     rcases hrest with ⟨_, hr, _, hn⟩ | ⟨hr1, hbody⟩
     · cases hn
     subst hr1
-    rcases headerStep_spec env s s1 b none hne hs1 with ⟨_, hr, _⟩ | ⟨_, _, hs1eq, _⟩ | ⟨_, hni, _⟩
+    rcases headerStep_spec env s s1 b none hne hs1 with ⟨_, hr, _⟩ | ⟨_, _, hs1eq, hver⟩ | ⟨_, hni, _⟩
     · cases hr
     · have hhh' : s'.headerHeight = s.headerHeight + 1 := by
         unfold Node.headerHeight; rw [c5]; simp; omega
@@ -137,7 +141,21 @@ theorem correct_still_accepted_aux (env : Env L) (s s' t : Node L) (b' b : Block
         simp only [this]
         have hget : s'.headers[b.hdr.index]? = some b'.hdr := by
           rw [c5, hidx, ← hlen]; simp
-        simp [hget, hh]
+        have hne' : (b'.hdr.hash != b.hdr.hash) = false := by simp [hh]
+        simp only [hget, hne']
+        cases hsk : s.cfg.skip with
+        | true => simp [c1, hsk]
+        | false =>
+          obtain ⟨last, hl, hv⟩ := hver hsk
+          have hsg := (verifyHeader_none env s b.hdr last hv).1.2.2.2
+          have hl' : s'.lookup b.hdr.prevHash = some last := by
+            have := lookup_append s b.hdr.prevHash last b'.hdr hl
+            have hs'eq : s' = { s with headers := s.headers ++ [b'.hdr] } :=
+              node_ext _ _ c1 c2 c5 c3 c4
+            rw [hs'eq]; exact this
+          by_cases hw : (b'.hdr.wit == b.hdr.wit) = true
+          · simp [hw]
+          · simp [c1, hsk, hw, hl', hsg]
       unfold addBlock
       have e1 : (s'.blockHeight + 1 != b.hdr.index) = false := by simp [c2, hbi]
       have e2 : (s'.cfg.sr != b.hdr.sre) = false := by simp [c1, hbsr]
